@@ -155,13 +155,16 @@ func firstLine(s string) string {
 
 // ---- the commit matrix (E3) -----------------------------------------------------------------
 
-var commitFlagKinds = []string{"absent", "nil", "commit", "commit-badsig", "commit-for-B", "commit-for-A'", "commit-by-other",
+var commitFlagKinds = []string{"absent", "nil", "commit", "commit-badsig", "commit-for-B", "commit-for-A'", "commit-by-other", "commit-for-A^",
 	// thorough only:
 	"nil-badsig", "nil-signed-for-A", "commit-other-round", "commit-other-chain", "commit-other-height", "absent-with-sig"}
 
-const quickFlagKinds = 7
+const quickFlagKinds = 8
 
-var commitVariants = []string{"right", "size-1", "size+1", "arg-height+1", "commit-height+1", "arg-B", "arg-A'", "commit-A'", "commit-round+1"}
+// quick runs the first quickVariants variants (up to and including "arg-A^")
+const quickVariants = 10
+
+var commitVariants = []string{"right", "size-1", "size+1", "arg-height+1", "commit-height+1", "arg-B", "arg-A'", "commit-A'", "commit-round+1", "arg-A^", "commit-A^", "commit-B"}
 
 type commitUniverse struct {
 	n       int
@@ -205,6 +208,8 @@ func newCommitUniverse(pw []int64) *commitUniverse {
 				e = append(e, mk(types.BlockIDFlagCommit, k.addr, sign(k, chainID, height, round, bB, ts)))
 			case "commit-for-A'":
 				e = append(e, mk(types.BlockIDFlagCommit, k.addr, sign(k, chainID, height, round, bAp, ts)))
+			case "commit-for-A^":
+				e = append(e, mk(types.BlockIDFlagCommit, k.addr, sign(k, chainID, height, round, bAr, ts)))
 			case "commit-by-other":
 				e = append(e, mk(types.BlockIDFlagCommit, other.addr, sign(other, chainID, height, round, bA, ts)))
 			case "nil-badsig":
@@ -270,6 +275,12 @@ func (cu *commitUniverse) build(flags []int, variant string) (*types.Commit, ref
 		c.BlockID, argID = repoID(refIDs[bAp]), refIDs[bAp]
 	case "commit-round+1":
 		c.Round = round + 1
+	case "arg-A^":
+		argID = refIDs[bAr]
+	case "commit-A^":
+		c.BlockID, argID = repoID(refIDs[bAr]), refIDs[bAr]
+	case "commit-B":
+		c.BlockID, argID = repoID(refIDs[bB]), refIDs[bB]
 	default:
 		panic(variant)
 	}
@@ -322,6 +333,9 @@ func commitMatrix(vecIdx int, pw []int64, nKinds int) []commitViol {
 		radices[i] = nKinds
 	}
 	radices[n] = len(commitVariants)
+	if r.Quick() {
+		radices[n] = quickVariants
+	}
 	total := par.Product(radices)
 	viols := make([][]commitViol, total)
 	full := 1<<uint(n) - 1
